@@ -13,9 +13,15 @@ def conv(v, flt):
 if __name__ == "__main__":
     p = read_payload()
     out = {"ppc": [], "cutout": []}
+    _reuse = {}
     for c in p.get("ppc", []):
         flt = c.get("float", True)
         poly = [(conv(v[0:2], flt), conv(v[2:4], flt)) for v in c["poly"]]
+        # one list object per vertex count, edited in place from polygon to polygon (a caller may do that):
+        # the classification must depend on the vertices only, never on the identity of the list
+        buf = _reuse.setdefault(len(poly), [None] * len(poly))
+        buf[:] = poly
+        poly = buf
         res = []
         for q in c["pts"]:
             pt = (conv(q[0:2], flt), conv(q[2:4], flt))
